@@ -10,3 +10,5 @@ import BalmProofs.Props.C03
 #print axioms Balm.Impl.valuation_trap
 #print axioms Balm.Props.C04.expandASeeds_inv
 #print axioms Balm.Impl.judgeWeak_sound
+#print axioms Balm.Impl.weak_complete_leaves
+#print axioms Balm.Impl.exists_min_inside
